@@ -128,6 +128,10 @@ def encode_varint(value: int):
             value >>= 7
 
     else:
+        if value == 0:
+            # Zero is encoded as a single zero byte (the loop below would leave the byte array empty)
+            return bytearray(b"\x00")
+
         while value:
             byte_array.insert(0, ((value & 0x7F) | 0x80))
             value >>= 7
